@@ -103,8 +103,8 @@ def render(inst):
     if not feats:
         feats = ["full"]
     bound = "heap of %d objects, 2 traced + 1 untraced slot each, every control choice fixed: %s" % (inst.n, inst.describe())
-    a("//@ %s | bounded: %s | deciding | %s | feat=%s | fn=collect_cycles,collect,__collect,trace_counting,trace_roots,deallocate_list,Cc::drop,Cc::clone | timeout=300 | safety=C01,C03,C04,C07 | l2" % (
-        " ".join(inst.props), bound.replace("|", "/"), inst.tier, ",".join(feats)))
+    a("//@ %s | bounded: %s | deciding | %s | feat=%s | fn=collect_cycles,collect,__collect,trace_counting,trace_roots,deallocate_list,Cc::drop,Cc::clone | timeout=300 | safety=%s | l2" % (
+        " ".join(inst.props), bound.replace("|", "/"), inst.tier, ",".join(feats), "C01,C03,C04,C07,C08" if weak else "C01,C03,C04,C07"))
     if weak:
         a('#[cfg(feature = "weak-ptrs")]')
     if uses_fin:
